@@ -280,3 +280,962 @@ Proof.
     [now inversion H|].
   destruct (negb mo); [now inversion H|]. now apply plan_core_err in H.
 Qed.
+
+(* ------------------------------------------------------------------------------------------ *)
+(** * pointwise view of a plan *)
+
+(** planned volume / reported concentration / target of well (r, c); source and steps of column c *)
+Definition pvol (p : dplan) (c r : nat) : Z := nth r (i_vols (nth c (dp_instr p) dinstr)) 0%Z.
+Definition pconc (p : dplan) (c r : nat) : Q := nth r (nth c (dp_x p) []) 0%Q.
+Definition ptarget (ideal : list (list Q)) (c r : nat) : Q := nth r (nth c ideal []) 0%Q.
+Definition psrc (p : dplan) (c : nat) : option nat := i_src (nth c (dp_instr p) dinstr).
+Definition psteps (p : dplan) (c : nat) : nat := i_steps (nth c (dp_instr p) dinstr).
+
+Lemma plan_lengths ideal stock vmax mt p n1 R :
+  plan_ok ideal stock vmax mt p n1 -> Forall (fun col => length col = R) ideal ->
+  forall c, c < length ideal ->
+  length (i_vols (nth c (dp_instr p) dinstr)) = R /\ length (nth c (dp_x p) []) = R.
+Proof.
+  intros (Hv & L1 & L2 & L3 & Hn & Hst & Hser & _) Hrect c.
+  induction c as [c IH] using lt_wf_ind. intro Hc.
+  assert (Hcol : length (nth c ideal []) = R).
+  { apply (proj1 (Forall_nth _ ideal) Hrect c [] Hc). }
+  destruct (Nat.lt_ge_cases c n1) as [Hlt|Hge].
+  - destruct (Hst c Hlt) as (_ & _ & _ & Hvol & _ & Hx). rewrite Hx, Hvol.
+    unfold stock_x, stock_vols. rewrite !map_length. split; exact Hcol.
+  - destruct (Hser c (conj Hge Hc)) as (_ & _ & k & Hk & _ & _ & Hvol & Hx & _).
+    destruct (IH k Hk ltac:(lia)) as (_ & Lk).
+    rewrite Hx, Hvol. unfold serial_x, serial_vols.
+    rewrite !map_length, !zip_len, !map_length, !zip_len, Lk, Hcol. lia.
+Qed.
+
+Section Pointwise.
+Local Open Scope Q_scope.
+
+Lemma plan_pointwise ideal stock vmax mt p n1 R :
+  plan_ok ideal stock vmax mt p n1 -> Forall (fun col => length col = R) ideal ->
+  forall c r, (c < length ideal)%nat -> (r < R)%nat ->
+  mt <= inject_Z (pvol p c r) /\
+  (((c < n1)%nat /\ psrc p c = None /\ psteps p c = 0%nat /\
+     pvol p c r = Qrint (nth c vmax 0 * ptarget ideal c r / stock) /\
+     pconc p c r == inject_Z (pvol p c r) / nth c vmax 0 * stock) \/
+   ((n1 <= c)%nat /\ exists k, (k < c)%nat /\ psrc p c = Some k /\ psteps p c = S (psteps p k) /\
+     pvol p c r = Qceiling (nth c vmax 0 * ptarget ideal c r / pconc p k r) /\
+     pconc p c r == inject_Z (pvol p c r) * pconc p k r / nth c vmax 0)).
+Proof.
+  intros Hok Hrect c r Hc Hr.
+  pose proof (plan_lengths _ _ _ _ _ _ _ Hok Hrect) as Hlen.
+  destruct Hok as (Hv & L1 & L2 & L3 & Hn & Hst & Hser & _).
+  destruct (Hlen c Hc) as (Lv & Lx).
+  assert (Hcol : length (nth c ideal []) = R).
+  { apply (proj1 (Forall_nth _ ideal) Hrect c [] Hc). }
+  destruct (Nat.lt_ge_cases c n1) as [Hlt|Hge].
+  - destruct (Hst c Hlt) as (_ & Hs0 & Hsrc & Hvol & Hvok & Hx). split.
+    { apply Qle_bool_iff. apply (forallb_nth _ _ 0%Z r) in Hvok; [exact Hvok|lia]. }
+    left. split; [exact Hlt|]. split; [exact Hsrc|]. split; [exact Hs0|]. split.
+    + unfold pvol, ptarget. rewrite Hvol. unfold stock_vols.
+      rewrite (nth_map_lt _ _ 0) by lia. reflexivity.
+    + unfold pconc. rewrite Hx. unfold stock_x.
+      rewrite (nth_map_lt _ _ 0%Z) by lia. apply Qred_correct.
+  - destruct (Hser c (conj Hge Hc)) as (_ & Hvok & k & Hk & Hsrc & Hsteps & Hvol & Hx & _).
+    destruct (Hlen k ltac:(lia)) as (_ & Lxk). split.
+    { apply Qle_bool_iff. apply (forallb_nth _ _ 0%Z r) in Hvok; [exact Hvok|lia]. }
+    right. split; [exact Hge|]. exists k.
+    split; [exact Hk|]. split; [exact Hsrc|]. split; [exact Hsteps|]. split.
+    + unfold pvol, ptarget, pconc. rewrite Hvol. unfold serial_vols.
+      rewrite (nth_map_lt _ _ (0, 0)) by (rewrite zip_len; lia).
+      rewrite nth_zip by lia. reflexivity.
+    + unfold pconc at 1. rewrite Hx. unfold serial_x.
+      rewrite (nth_map_lt _ _ (0%Z, 0)) by (rewrite zip_len; lia).
+      rewrite nth_zip by lia. apply Qred_correct.
+Qed.
+
+End Pointwise.
+
+(* ------------------------------------------------------------------------------------------ *)
+(** * C14: the planner *)
+
+Lemma c14_complete ideal stock vmax mt :
+  (forall p, plan_core ideal stock vmax mt = Ok p ->
+     dp_vmax p = vmax /\ length (dp_instr p) = length ideal /\ length (dp_x p) = length ideal /\
+     length ideal <= length vmax /\
+     forall c, c < length ideal -> i_col (nth c (dp_instr p) dinstr) = c) /\
+  (forall e, plan_core ideal stock vmax mt = Err e -> e = EValue).
+Proof.
+  split; [|intros e; apply plan_core_err].
+  intros p H. destruct (plan_core_ok _ _ _ _ _ H) as (n1 & Hv & L1 & L2 & L3 & Hn & Hst & Hser & _).
+  split; [exact Hv|]. split; [exact L1|]. split; [exact L2|]. split; [exact L3|].
+  intros c Hc. destruct (Nat.lt_ge_cases c n1) as [Hlt|Hge].
+  - now destruct (Hst c Hlt) as (Hcol & _).
+  - now destruct (Hser c (conj Hge Hc)) as (Hcol & _).
+Qed.
+
+Lemma c14_shape ideal stock vmax mt p R :
+  plan_core ideal stock vmax mt = Ok p -> Forall (fun col => length col = R) ideal ->
+  forall c, c < length ideal ->
+  length (i_vols (nth c (dp_instr p) dinstr)) = R /\ length (nth c (dp_x p) []) = R.
+Proof.
+  intros H Hrect. destruct (plan_core_ok _ _ _ _ _ H) as (n1 & Hok).
+  exact (plan_lengths _ _ _ _ _ _ _ Hok Hrect).
+Qed.
+
+Lemma c14_order ideal stock vmax mt p :
+  plan_core ideal stock vmax mt = Ok p ->
+  exists n1, n1 <= length ideal /\
+  forall c, c < length ideal ->
+    (c < n1 /\ psrc p c = None /\ psteps p c = 0) \/
+    (n1 <= c /\ exists k, k < c /\ psrc p c = Some k /\ psteps p c = S (psteps p k)).
+Proof.
+  intro H. destruct (plan_core_ok _ _ _ _ _ H) as (n1 & Hv & L1 & L2 & L3 & Hn & Hst & Hser & _).
+  exists n1. split; [exact Hn|]. intros c Hc.
+  destruct (Nat.lt_ge_cases c n1) as [Hlt|Hge].
+  - left. destruct (Hst c Hlt) as (_ & Hs0 & Hsrc & _). now split.
+  - right. destruct (Hser c (conj Hge Hc)) as (_ & _ & k & Hk & Hsrc & Hsteps & _).
+    split; [exact Hge|]. exists k. now split.
+Qed.
+
+Section PlannerQ.
+Local Open Scope Q_scope.
+
+Lemma Qrint_bounds q : q - (1#2) <= inject_Z (Qrint q) /\ inject_Z (Qrint q) <= q + (1#2).
+Proof.
+  unfold Qrint. pose proof (Qfloor_le q) as H1. pose proof (Qlt_floor q) as H2.
+  rewrite inject_Z_plus in H2. change (inject_Z 1) with 1 in H2.
+  destruct (Qcompare (q - inject_Z (Qfloor q)) (1#2)) eqn:E.
+  - apply Qeq_alt in E. destruct (Z.even (Qfloor q)).
+    + lra.
+    + rewrite inject_Z_plus. change (inject_Z 1) with 1. lra.
+  - apply Qlt_alt in E. lra.
+  - apply Qgt_alt in E. rewrite inject_Z_plus. change (inject_Z 1) with 1. lra.
+Qed.
+
+Lemma Qceiling_bounds q : q <= inject_Z (Qceiling q) /\ inject_Z (Qceiling q) < q + 1.
+Proof.
+  split; [apply Qle_ceiling|].
+  pose proof (Qceiling_lt q) as H.
+  replace (Qceiling q - 1)%Z with (Qceiling q + (-1))%Z in H by lia.
+  rewrite inject_Z_plus in H. change (inject_Z (-1)) with (-1 # 1) in H. lra.
+Qed.
+
+Lemma Z_le_of_Q_half (v n : Z) : inject_Z v <= inject_Z n + (1#2) -> (v <= n)%Z.
+Proof.
+  intro H. assert (H' : inject_Z v < inject_Z (n + 1)).
+  { rewrite inject_Z_plus. change (inject_Z 1) with 1. lra. }
+  rewrite <- Zlt_Qlt in H'. lia.
+Qed.
+
+Lemma Z_le_of_Q_lt1 (v n : Z) : inject_Z v < inject_Z n + 1 -> (v <= n)%Z.
+Proof.
+  intro H. assert (H' : inject_Z v < inject_Z (n + 1)).
+  { rewrite inject_Z_plus. change (inject_Z 1) with 1. lra. }
+  rewrite <- Zlt_Qlt in H'. lia.
+Qed.
+
+Lemma div_le_self vm t s : 0 <= vm -> 0 < s -> t <= s -> vm * t / s <= vm.
+Proof. intros Hvm Hs Ht. apply Qle_shift_div_r; [exact Hs|]. nra. Qed.
+
+Lemma vmax_pos_nth (vmax : list Q) c : Forall (fun v => 0 < v) vmax -> (c < length vmax)%nat -> 0 < nth c vmax 0.
+Proof. intros H Hc. apply (proj1 (Forall_nth _ vmax) H c 0 Hc). Qed.
+
+Variables (ideal : list (list Q)) (stock : Q) (vmax : list Q) (mt : Q) (p : dplan) (R : nat).
+Hypothesis Hplan : plan_core ideal stock vmax mt = Ok p.
+Hypothesis Hrect : Forall (fun col => length col = R) ideal.
+
+Lemma c14_whole_min c r : (c < length ideal)%nat -> (r < R)%nat -> mt <= inject_Z (pvol p c r).
+Proof.
+  intros Hc Hr. destruct (plan_core_ok _ _ _ _ _ Hplan) as (n1 & Hok).
+  now destruct (plan_pointwise _ _ _ _ _ _ _ Hok Hrect c r Hc Hr) as (Hmin & _).
+Qed.
+
+(** the reported concentrations are the ones implied by the instructions *)
+Lemma c14_x c r : (c < length ideal)%nat -> (r < R)%nat ->
+  match psrc p c with
+  | None => pconc p c r == inject_Z (pvol p c r) / nth c vmax 0 * stock
+  | Some k => (k < c)%nat /\ pconc p c r == inject_Z (pvol p c r) * pconc p k r / nth c vmax 0
+  end.
+Proof.
+  intros Hc Hr. destruct (plan_core_ok _ _ _ _ _ Hplan) as (n1 & Hok).
+  destruct (plan_pointwise _ _ _ _ _ _ _ Hok Hrect c r Hc Hr)
+    as (_ & [(_ & Hsrc & _ & _ & Hx)|(_ & k & Hk & Hsrc & _ & _ & Hx)]); rewrite Hsrc.
+  - exact Hx.
+  - split; [exact Hk|exact Hx].
+Qed.
+
+(** all reported concentrations are positive *)
+Lemma c14_x_pos : 0 < mt -> 0 < stock -> Forall (fun v => 0 < v) vmax ->
+  forall c r, (c < length ideal)%nat -> (r < R)%nat -> 0 < pconc p c r.
+Proof.
+  intros Hmt Hstock Hvm c. induction c as [c IH] using lt_wf_ind. intros r Hc Hr.
+  destruct (plan_core_ok _ _ _ _ _ Hplan) as (n1 & Hok).
+  assert (Hvc : 0 < nth c vmax 0).
+  { apply vmax_pos_nth; [exact Hvm|]. destruct Hok as (_ & _ & _ & L3 & _). lia. }
+  destruct (plan_pointwise _ _ _ _ _ _ _ Hok Hrect c r Hc Hr)
+    as (Hmin & [(_ & _ & _ & _ & Hx)|(_ & k & Hk & _ & _ & _ & Hx)]); rewrite Hx.
+  - apply Qmult_lt_0_compat; [|exact Hstock]. apply Qlt_shift_div_l; [exact Hvc|]. lra.
+  - pose proof (IH k Hk r ltac:(lia) Hr) as Hxk.
+    apply Qlt_shift_div_l; [exact Hvc|]. rewrite Qmult_0_l.
+    apply Qmult_lt_0_compat; [lra|exact Hxk].
+Qed.
+
+(** the plan is within rounding of the ideal table *)
+Lemma c14_near_target : 0 < mt -> 0 < stock -> Forall (fun v => 0 < v) vmax ->
+  forall c r, (c < length ideal)%nat -> (r < R)%nat ->
+  match psrc p c with
+  | None => Qabs (inject_Z (pvol p c r) - nth c vmax 0 * ptarget ideal c r / stock) <= 1#2
+  | Some k => (k < c)%nat /\ 0 < pconc p k r /\
+      0 <= inject_Z (pvol p c r) - nth c vmax 0 * ptarget ideal c r / pconc p k r /\
+      inject_Z (pvol p c r) - nth c vmax 0 * ptarget ideal c r / pconc p k r < 1
+  end.
+Proof.
+  intros Hmt Hstock Hvm c r Hc Hr. destruct (plan_core_ok _ _ _ _ _ Hplan) as (n1 & Hok).
+  destruct (plan_pointwise _ _ _ _ _ _ _ Hok Hrect c r Hc Hr)
+    as (_ & [(_ & Hsrc & _ & Hv & _)|(_ & k & Hk & Hsrc & _ & Hv & _)]); rewrite Hsrc.
+  - rewrite Hv. apply Qabs_Qle_condition.
+    destruct (Qrint_bounds (nth c vmax 0 * ptarget ideal c r / stock)) as (H1 & H2). split; lra.
+  - split; [exact Hk|]. split; [apply c14_x_pos; try assumption; lia|].
+    rewrite Hv. destruct (Qceiling_bounds (nth c vmax 0 * ptarget ideal c r / pconc p k r)) as (H1 & H2).
+    split; lra.
+Qed.
+
+(** what holds instead of [v <= vmax] *)
+Lemma c14_vmax_partial : 0 < mt -> 0 < stock -> Forall (fun v => 0 < v) vmax ->
+  forall c r, (c < length ideal)%nat -> (r < R)%nat ->
+  match psrc p c with
+  | None =>
+      inject_Z (pvol p c r) <= nth c vmax 0 * ptarget ideal c r / stock + (1#2) /\
+      forall n : Z, nth c vmax 0 == inject_Z n -> ptarget ideal c r <= stock -> (pvol p c r <= n)%Z
+  | Some k =>
+      (k < c)%nat /\
+      inject_Z (pvol p c r) < nth c vmax 0 * ptarget ideal c r / pconc p k r + 1 /\
+      forall n : Z, nth c vmax 0 == inject_Z n -> ptarget ideal c r <= pconc p k r -> (pvol p c r <= n)%Z
+  end.
+Proof.
+  intros Hmt Hstock Hvm c r Hc Hr. destruct (plan_core_ok _ _ _ _ _ Hplan) as (n1 & Hok).
+  assert (Hvc : 0 < nth c vmax 0).
+  { apply vmax_pos_nth; [exact Hvm|]. destruct Hok as (_ & _ & _ & L3 & _). lia. }
+  destruct (plan_pointwise _ _ _ _ _ _ _ Hok Hrect c r Hc Hr)
+    as (_ & [(_ & Hsrc & _ & Hv & _)|(_ & k & Hk & Hsrc & _ & Hv & _)]); rewrite Hsrc.
+  - destruct (Qrint_bounds (nth c vmax 0 * ptarget ideal c r / stock)) as (H1 & H2).
+    rewrite <- Hv in H1, H2. split; [exact H2|].
+    intros n Hn Ht. apply Z_le_of_Q_half.
+    pose proof (div_le_self (nth c vmax 0) (ptarget ideal c r) stock ltac:(lra) Hstock Ht) as H3. lra.
+  - assert (Hxk : 0 < pconc p k r) by (apply c14_x_pos; try assumption; lia).
+    destruct (Qceiling_bounds (nth c vmax 0 * ptarget ideal c r / pconc p k r)) as (H1 & H2).
+    rewrite <- Hv in H1, H2. split; [exact Hk|]. split; [exact H2|].
+    intros n Hn Ht. apply Z_le_of_Q_lt1.
+    pose proof (div_le_self (nth c vmax 0) (ptarget ideal c r) (pconc p k r) ltac:(lra) Hxk Ht) as H3. lra.
+Qed.
+
+End PlannerQ.
+
+(* ------------------------------------------------------------------------------------------ *)
+(** * v_stock, v_diluent *)
+
+Definition Zsum (l : list Z) : Z := fold_right Z.add 0%Z l.
+(** column prepared directly from the stock *)
+Definition stock_prepared (i : instr) : bool := match i_src i with None => true | Some _ => false end.
+(** all volumes of the plan / of the stock-prepared columns *)
+Definition all_vols (p : dplan) : list Z := concat (map i_vols (dp_instr p)).
+Definition stock_vols_of (p : dplan) : list Z := concat (map i_vols (filter stock_prepared (dp_instr p))).
+
+Lemma Zsum_app l1 l2 : Zsum (l1 ++ l2) = (Zsum l1 + Zsum l2)%Z.
+Proof.
+  induction l1 as [|x l1 IH]; unfold Zsum in *; cbn [app fold_right]; [reflexivity|]. rewrite IH. lia.
+Qed.
+
+Lemma v_stock_filter_gen (l : list instr) :
+  (forall i, In i l -> (i_steps i =? 0) = stock_prepared i) ->
+  fold_right (fun i acc => if i_steps i =? 0 then (fold_right Z.add 0 (i_vols i) + acc)%Z else acc) 0%Z l
+  = Zsum (concat (map i_vols (filter stock_prepared l))).
+Proof.
+  induction l as [|i l IH]; intro H; [reflexivity|].
+  cbn [fold_right filter]. rewrite (H i (or_introl eq_refl)).
+  rewrite IH by (intros j Hj; apply H; now right).
+  destruct (stock_prepared i); [|reflexivity].
+  cbn [map concat]. rewrite Zsum_app. reflexivity.
+Qed.
+
+Lemma plan_instr_nth ideal stock vmax mt p i :
+  plan_core ideal stock vmax mt = Ok p -> In i (dp_instr p) ->
+  exists c, c < length ideal /\ nth c (dp_instr p) dinstr = i /\ i_col i = c.
+Proof.
+  intros H Hi. destruct (proj1 (c14_complete ideal stock vmax mt) p H) as (_ & L1 & _ & _ & Hcol).
+  destruct (In_nth _ _ dinstr Hi) as (c & Hc & Hn). exists c. rewrite L1 in Hc.
+  split; [exact Hc|]. split; [exact Hn|]. rewrite <- Hn. now apply Hcol.
+Qed.
+
+Lemma c14_v_stock ideal stock vmax mt p :
+  plan_core ideal stock vmax mt = Ok p -> v_stock p = Zsum (stock_vols_of p).
+Proof.
+  intro H. unfold v_stock, stock_vols_of. apply v_stock_filter_gen. intros i Hi.
+  destruct (plan_instr_nth _ _ _ _ _ _ H Hi) as (c & Hc & Hn & _).
+  destruct (c14_order _ _ _ _ _ H) as (n1 & _ & Hord).
+  unfold stock_prepared.
+  destruct (Hord c Hc) as [(_ & Hsrc & Hst)|(_ & k & _ & Hsrc & Hst)];
+    unfold psrc, psteps in Hsrc, Hst; rewrite Hn in Hsrc, Hst; rewrite Hsrc, Hst; reflexivity.
+Qed.
+
+(** every planned volume reaches min_transfer (no assumption on the shape of [ideal]) *)
+Lemma plan_vols_min ideal stock vmax mt p :
+  plan_core ideal stock vmax mt = Ok p ->
+  forall i v, In i (dp_instr p) -> In v (i_vols i) -> (mt <= inject_Z v)%Q.
+Proof.
+  intros H i v Hi Hv. destruct (plan_instr_nth _ _ _ _ _ _ H Hi) as (c & Hc & Hn & _).
+  destruct (plan_core_ok _ _ _ _ _ H) as (n1 & _ & _ & _ & _ & _ & Hst & Hser & _).
+  assert (Hok : vols_ok mt (i_vols i) = true).
+  { destruct (Nat.lt_ge_cases c n1) as [Hlt|Hge].
+    - destruct (Hst c Hlt) as (_ & _ & _ & _ & Hok & _). now rewrite Hn in Hok.
+    - destruct (Hser c (conj Hge Hc)) as (_ & Hok & _). now rewrite Hn in Hok. }
+  unfold vols_ok in Hok. rewrite forallb_forall in Hok. apply Qle_bool_iff. exact (Hok v Hv).
+Qed.
+
+Section Sums.
+Local Open Scope Q_scope.
+
+Lemma Qsum_cons x l : Qsum (x :: l) == x + Qsum l.
+Proof. unfold Qsum. cbn [fold_right]. reflexivity. Qed.
+
+Lemma Qsum_scale (k : Q) l : Qsum (map (fun v => k * v) l) == k * Qsum l.
+Proof.
+  induction l as [|x l IH]; [unfold Qsum; cbn [map fold_right]; ring|].
+  cbn [map]. rewrite !Qsum_cons, IH. ring.
+Qed.
+
+Lemma c14_v_diluent (R : nat) (p : dplan) :
+  v_diluent R p == inject_Z (Z.of_nat R) * Qsum (dp_vmax p) - inject_Z (v_stock p).
+Proof. unfold v_diluent. rewrite Qsum_scale. reflexivity. Qed.
+
+End Sums.
+
+(* ------------------------------------------------------------------------------------------ *)
+(** * the planner is greedy: stock as long as possible, then the leftmost usable source *)
+
+Lemma forallb_false_nth {A} (f : A -> bool) (d : A) (l : list A) :
+  forallb f l = false -> exists r, r < length l /\ f (nth r l d) = false.
+Proof.
+  induction l as [|x l IH]; intro H; cbn [forallb] in H; [discriminate|].
+  destruct (f x) eqn:E.
+  - destruct (IH H) as (r & Hr & Hf). exists (S r). cbn [length nth]. split; [lia|exact Hf].
+  - exists 0. cbn [length nth]. split; [lia|exact E].
+Qed.
+
+Lemma Qgeb_false a b : Qgeb a b = false -> (a < b)%Q.
+Proof.
+  unfold Qgeb. intro H. apply Qnot_le_lt. intro C. apply Qle_bool_iff in C. congruence.
+Qed.
+
+Lemma c14_greedy ideal stock vmax mt p R :
+  plan_core ideal stock vmax mt = Ok p -> Forall (fun col => length col = R) ideal ->
+  exists n1, n1 <= length ideal /\
+  (forall c, c < length ideal -> (c < n1 <-> psrc p c = None)) /\
+  (n1 < length ideal ->
+     exists r, r < R /\ (inject_Z (Qrint (nth n1 vmax 0 * ptarget ideal n1 r / stock)) < mt)%Q) /\
+  (forall c k k', c < length ideal -> psrc p c = Some k -> k' < k ->
+     exists r, r < R /\ (inject_Z (Qceiling (nth c vmax 0 * ptarget ideal c r / pconc p k' r)) < mt)%Q).
+Proof.
+  intros H Hrect. destruct (plan_core_ok _ _ _ _ _ H) as (n1 & Hok).
+  pose proof (plan_lengths _ _ _ _ _ _ _ Hok Hrect) as Hlen.
+  destruct Hok as (Hv & L1 & L2 & L3 & Hn & Hst & Hser & Hmax).
+  assert (Hcol : forall c, c < length ideal -> length (nth c ideal []) = R).
+  { intros c Hc. apply (proj1 (Forall_nth _ ideal) Hrect c [] Hc). }
+  exists n1. split; [exact Hn|]. split; [|split].
+  - intros c Hc. destruct (Nat.lt_ge_cases c n1) as [Hlt|Hge].
+    + destruct (Hst c Hlt) as (_ & _ & Hsrc & _). split; [intros _; exact Hsrc|intros _; exact Hlt].
+    + destruct (Hser c (conj Hge Hc)) as (_ & _ & k & _ & Hsrc & _).
+      unfold psrc. rewrite Hsrc. split; [lia|discriminate].
+  - intro Hlt. specialize (Hmax Hlt). unfold vols_ok in Hmax.
+    destruct (forallb_false_nth _ 0%Z _ Hmax) as (r & Hr & Hf).
+    unfold stock_vols in Hr, Hf. rewrite map_length, (Hcol n1 Hlt) in Hr.
+    rewrite (nth_map_lt _ _ 0%Q) in Hf by (rewrite (Hcol n1 Hlt); exact Hr).
+    exists r. split; [exact Hr|]. apply Qgeb_false. exact Hf.
+  - intros c k k' Hc Hsrc Hk'.
+    destruct (Nat.lt_ge_cases c n1) as [Hlt|Hge].
+    { destruct (Hst c Hlt) as (_ & _ & Hnone & _). unfold psrc in Hsrc. congruence. }
+    destruct (Hser c (conj Hge Hc)) as (_ & _ & k0 & Hk0 & Hsrc0 & _ & _ & _ & Hleft).
+    unfold psrc in Hsrc. rewrite Hsrc0 in Hsrc. inversion Hsrc; subst k0.
+    specialize (Hleft k' Hk'). unfold vols_ok in Hleft.
+    destruct (forallb_false_nth _ 0%Z _ Hleft) as (r & Hr & Hf).
+    destruct (Hlen k' ltac:(lia)) as (_ & Lk').
+    unfold serial_vols in Hr, Hf. rewrite map_length, zip_len, (Hcol c Hc), Lk', Nat.min_id in Hr.
+    rewrite (nth_map_lt _ _ (0%Q, 0%Q)) in Hf by (rewrite zip_len, (Hcol c Hc), Lk', Nat.min_id; exact Hr).
+    rewrite nth_zip in Hf by (rewrite ?(Hcol c Hc), ?Lk'; exact Hr).
+    exists r. split; [exact Hr|]. apply Qgeb_false. exact Hf.
+Qed.
+
+(* ------------------------------------------------------------------------------------------ *)
+(** * the two false clauses (F11a, F11b) *)
+
+(** total volume the plan draws from well (r, k) for later columns *)
+Definition drawn (p : dplan) (k r : nat) : Z :=
+  Zsum (map (fun i => nth r (i_vols i) 0%Z)
+            (filter (fun i => match i_src i with Some s => s =? k | None => false end) (dp_instr p))).
+
+Section Witnesses.
+Local Open Scope Q_scope.
+
+(** F11a, per-column vmax: 6 uL are planned into a 5 uL column *)
+Definition w_a_ideal : list (list Q) := [[32#5; 63#10]; [31#5; 61#10]].
+Definition w_a_vmax : list Q := [10; 5].
+(** F11a, non-integer vmax *)
+Definition w_a'_ideal : list (list Q) := [[1]].
+Definition w_a'_vmax : list Q := [7#2].
+(** F11b: columns 1 and 2 are both diluted from column 0 *)
+Definition w_b_ideal : list (list Q) := [[10]; [8]; [32#5]].
+Definition w_b_vmax : list Q := [1000; 1000; 1000].
+
+Lemma c14_vmax_refuted :
+  exists ideal stock vmax mt p R c r,
+    plan_core ideal stock vmax mt = Ok p /\
+    length vmax = length ideal /\ Forall (fun col => length col = R) ideal /\
+    0 < mt /\ 0 < stock /\ Forall (fun v => 0 < v) vmax /\
+    Forall (Forall (fun x => 0 < x /\ x <= stock)) ideal /\
+    (c < length ideal)%nat /\ (r < R)%nat /\
+    nth c vmax 0 < inject_Z (pvol p c r).
+Proof.
+  exists w_a_ideal, 10, w_a_vmax, 4.
+  eexists. exists 2%nat, 1%nat, 0%nat.
+  split; [vm_compute; reflexivity|].
+  split; [reflexivity|]. split; [repeat constructor|]. split; [reflexivity|]. split; [reflexivity|].
+  split; [repeat constructor|]. split; [repeat constructor; discriminate|].
+  split; [cbn; lia|]. split; [lia|]. vm_compute. reflexivity.
+Qed.
+
+Lemma c14_vmax_refuted_fractional :
+  exists ideal stock vmax mt p R c r,
+    plan_core ideal stock vmax mt = Ok p /\
+    length vmax = length ideal /\ Forall (fun col => length col = R) ideal /\
+    0 < mt /\ 0 < stock /\ Forall (fun v => 0 < v) vmax /\
+    Forall (Forall (fun x => 0 < x /\ x <= stock)) ideal /\
+    (c < length ideal)%nat /\ (r < R)%nat /\ psrc p c = None /\
+    nth c vmax 0 < inject_Z (pvol p c r).
+Proof.
+  exists w_a'_ideal, 1, w_a'_vmax, 1.
+  eexists. exists 1%nat, 0%nat, 0%nat.
+  split; [vm_compute; reflexivity|].
+  split; [reflexivity|]. split; [repeat constructor|]. split; [reflexivity|]. split; [reflexivity|].
+  split; [repeat constructor|]. split; [repeat constructor; discriminate|].
+  split; [cbn; lia|]. split; [lia|]. split; [reflexivity|]. vm_compute. reflexivity.
+Qed.
+
+Lemma c14_budget_refuted :
+  exists ideal stock vmax mt p R k r,
+    plan_core ideal stock vmax mt = Ok p /\
+    length vmax = length ideal /\ Forall (fun col => length col = R) ideal /\
+    0 < mt /\ 0 < stock /\ Forall (fun v => 0 < v) vmax /\
+    Forall (Forall (fun x => 0 < x /\ x <= stock)) ideal /\
+    (k < length ideal)%nat /\ (r < R)%nat /\
+    nth k vmax 0 < inject_Z (drawn p k r).
+Proof.
+  exists w_b_ideal, 1000, w_b_vmax, 10.
+  eexists. exists 1%nat, 0%nat, 0%nat.
+  split; [vm_compute; reflexivity|].
+  split; [reflexivity|]. split; [repeat constructor|]. split; [reflexivity|]. split; [reflexivity|].
+  split; [repeat constructor|]. split; [repeat constructor; discriminate|].
+  split; [cbn; lia|]. split; [lia|]. vm_compute. reflexivity.
+Qed.
+
+End Witnesses.
+
+(** what holds of the volume budget: a single dilution step never takes more than its source column
+    holds, if both columns have the same whole-microlitre vmax and the target is not above the
+    concentration of the source *)
+Lemma c14_budget_partial ideal stock vmax mt p R :
+  plan_core ideal stock vmax mt = Ok p -> Forall (fun col => length col = R) ideal ->
+  (0 < mt)%Q -> (0 < stock)%Q -> Forall (fun v => (0 < v)%Q) vmax ->
+  forall c k r (n : Z), c < length ideal -> r < R -> psrc p c = Some k ->
+  (nth c vmax 0 == inject_Z n)%Q -> (nth k vmax 0 == inject_Z n)%Q ->
+  (ptarget ideal c r <= pconc p k r)%Q ->
+  (inject_Z (pvol p c r) <= nth k vmax 0)%Q.
+Proof.
+  intros H Hrect Hmt Hstock Hvm c k r n Hc Hr Hsrc Hn Hk Ht.
+  pose proof (c14_vmax_partial _ _ _ _ _ _ H Hrect Hmt Hstock Hvm c r Hc Hr) as Hp.
+  rewrite Hsrc in Hp. destruct Hp as (_ & _ & Hp). specialize (Hp n Hn Ht).
+  rewrite Hk. now rewrite <- Zle_Qle.
+Qed.
+
+(* ------------------------------------------------------------------------------------------ *)
+(** * to_worklist: the operations issued for one instruction *)
+
+Lemma flat_map_src_filter {B} (col : nat) (g : instr -> list B) (l : list instr) :
+  flat_map (fun j => match i_src j with
+                     | Some s => if s =? col then g j else []
+                     | None => []
+                     end) l
+  = flat_map g (filter (fun j => match i_src j with Some s => s =? col | None => false end) l).
+Proof.
+  induction l as [|j l IH]; [reflexivity|]. cbn [flat_map filter]. rewrite IH.
+  destruct (i_src j) as [s|]; [|reflexivity]. destruct (s =? col); reflexivity.
+Qed.
+
+Section Ops.
+Variables (a : twl_args) (p : dplan) (wmax : Q) (gs gd : geom).
+Local Open Scope string_scope.
+
+Definition col_wells (c : nat) : arr string := A1 (column_wells (tw_R a) c).
+Definition vm_of (i : instr) : Q := nth (i_col i) (dp_vmax p) 0%Q.
+Definition feeds (c : nat) (j : instr) : bool := match i_src j with Some s => (s =? c)%nat | None => false end.
+
+Definition stock_op (i : instr) : op :=
+  OTransfer (tw_stock a) (A1 (cycle_wells (tw_R a) (trough_column_wells gs (tw_stock_column a))))
+            (tw_plate a) (col_wells (i_col i)) (A1 (map inject_Z (i_vols i)))
+            (Some "Distribute from stock") (SInt 1) "auto" (kw_lc (tw_lc_stock a)).
+Definition dilute_op (i : instr) : op :=
+  OTransfer (tw_diluent a) (A1 (cycle_wells (tw_R a) (trough_column_wells gd (tw_diluent_column a))))
+            (tw_plate a) (col_wells (i_col i))
+            (A1 (map (fun v => Qred (vm_of i - v)%Q) (map inject_Z (i_vols i))))
+            (Some ("Dilute column " ++ dec (i_col i))) (SInt 1) "auto" (kw_lc (tw_lc_diluent a)).
+Definition mix_volume (i : instr) : Q :=
+  let mv := (vm_of i * tw_mix_volume a)%Q in if Qle_bool wmax mv then wmax else Qred mv.
+Definition needs_mix (i : instr) : bool :=
+  existsb (fun v => Qltb (tw_mix_threshold a * vm_of i)%Q v) (map inject_Z (i_vols i)).
+Definition mix_op (i : instr) (ws : scheme) : op :=
+  OTransfer (tw_plate a) (col_wells (i_col i)) (tw_plate a) (col_wells (i_col i)) (A0 (mix_volume i))
+            (Some ("Mix column " ++ dec (i_col i) ++ " with "
+                   ++ decZ (round2c (mix_volume i / vm_of i)%Q) ++ " % of its volume"))
+            ws "auto" (kw_lc (tw_lc_mix a)).
+Definition serial_op (i j : instr) : op :=
+  OTransfer (tw_plate a) (col_wells (i_col i)) (tw_plate a) (col_wells (i_col j))
+            (A1 (map inject_Z (i_vols j)))
+            (Some ("Transfer columns " ++ dec (i_col i) ++ " -> " ++ dec (i_col j) ++ " for later dilution step"))
+            (SInt 1) "auto" (kw_lc (tw_lc_transfer a)).
+Definition dest_op (i : instr) (d : nat) : op :=
+  OTransfer (tw_plate a) (col_wells (i_col i)) d (col_wells (i_col i)) (A0 (tw_v_destination a))
+            (Some ("Transfer column " ++ dec (i_col i) ++ " to the destination plate"))
+            (SInt 1) "auto" (kw_lc (tw_lc_transfer a)).
+
+Definition stock_part (i : instr) : list op :=
+  match i_src i with None => [stock_op i; OCommit] | Some _ => [] end.
+Definition dilute_part (i : instr) : list op := [dilute_op i; OCommit].
+Definition mix_part (i : instr) : list op :=
+  if needs_mix i then
+    flat_map (fun r => [mix_op i (if (r <? tw_mix_repeat a - 1)%nat then tw_mix_wash a else SInt 1); OCommit])
+             (seq 0 (tw_mix_repeat a))
+  else [].
+Definition serial_part (i : instr) : list op :=
+  flat_map (fun j => [serial_op i j; OCommit]) (filter (feeds (i_col i)) (dp_instr p)).
+Definition dest_part (i : instr) : list op :=
+  match tw_dest a with Some d => [dest_op i d; OCommit] | None => [] end.
+
+Lemma c14_exec_structure (i : instr) :
+  instr_ops a p wmax gs gd i =
+  (stock_part i ++ dilute_part i ++ mix_part i ++ serial_part i ++ dest_part i)%list.
+Proof.
+  unfold instr_ops. cbv zeta. rewrite flat_map_src_filter. reflexivity.
+Qed.
+
+Lemma mix_part_length (i : instr) :
+  length (mix_part i) = if needs_mix i then 2 * tw_mix_repeat a else 0%nat.
+Proof.
+  unfold mix_part. destruct (needs_mix i); [|reflexivity].
+  rewrite <- (seq_length (tw_mix_repeat a) 0) at 2.
+  generalize (seq 0 (tw_mix_repeat a)) as l. intro l.
+  induction l as [|r l IH]; [reflexivity|].
+  cbn [flat_map app length]. rewrite IH. lia.
+Qed.
+
+End Ops.
+
+(** the serial transfers out of column c go to later columns of the plan *)
+Lemma c14_serial_later ideal stock vmax mt p c j :
+  plan_core ideal stock vmax mt = Ok p -> In j (filter (feeds c) (dp_instr p)) ->
+  i_src j = Some c /\ c < i_col j /\ i_col j < length ideal /\ nth (i_col j) (dp_instr p) dinstr = j.
+Proof.
+  intros H Hj. apply filter_In in Hj. destruct Hj as (Hin & Hf).
+  destruct (plan_instr_nth _ _ _ _ _ _ H Hin) as (m & Hm & Hn & Hcol).
+  unfold feeds in Hf. destruct (i_src j) as [s|] eqn:Es; [|discriminate].
+  apply Nat.eqb_eq in Hf. subst s.
+  destruct (c14_order _ _ _ _ _ H) as (n1 & _ & Hord).
+  destruct (Hord m Hm) as [(_ & Hsrc & _)|(_ & k & Hk & Hsrc & _)];
+    unfold psrc in Hsrc; rewrite Hn, Es in Hsrc; [discriminate|].
+  inversion Hsrc; subst k. rewrite Hcol. repeat split; try assumption.
+Qed.
+
+(* ------------------------------------------------------------------------------------------ *)
+(** * to_worklist: refusals, and the link between run_instrs and the list of operations *)
+
+Lemma to_worklist_missing s a p C :
+  nth_error (st_lw s) (tw_plate a) = None \/ nth_error (st_lw s) (tw_stock a) = None \/
+  nth_error (st_lw s) (tw_diluent a) = None ->
+  to_worklist s a p C = (s, Some EReject).
+Proof.
+  unfold to_worklist. intros [H|[H|H]]; rewrite H.
+  - reflexivity.
+  - destruct (nth_error (st_lw s) (tw_plate a)); reflexivity.
+  - destruct (nth_error (st_lw s) (tw_plate a)); [|reflexivity].
+    destruct (nth_error (st_lw s) (tw_stock a)); reflexivity.
+Qed.
+
+(** the destination plate, if any, is missing or too small *)
+Definition dest_bad (s : state) (a : twl_args) (C : nat) : Prop :=
+  exists d, tw_dest a = Some d /\
+    match nth_error (st_lw s) d with
+    | Some DP => n_row_ids (lw_geom DP) < tw_R a \/ g_cols (lw_geom DP) < C
+    | None => True
+    end.
+
+Lemma to_worklist_cases s a p C P St D :
+  nth_error (st_lw s) (tw_plate a) = Some P -> nth_error (st_lw s) (tw_stock a) = Some St ->
+  nth_error (st_lw s) (tw_diluent a) = Some D ->
+  ((n_row_ids (lw_geom P) < tw_R a \/ g_cols (lw_geom P) < C) -> to_worklist s a p C = (s, Some EValue)) /\
+  (dest_bad s a C -> to_worklist s a p C = (s, Some EValue)) /\
+  ((is_trough (lw_geom St) = false \/ is_trough (lw_geom D) = false) ->
+     to_worklist s a p C = (s, Some EValue)) /\
+  (tw_R a <= n_row_ids (lw_geom P) -> C <= g_cols (lw_geom P) -> ~ dest_bad s a C ->
+   is_trough (lw_geom St) = true -> is_trough (lw_geom D) = true ->
+   to_worklist s a p C = run_instrs s a p (lw_geom St) (lw_geom D) (dp_instr p)).
+Proof.
+  intros HP HS HD. unfold to_worklist. rewrite HP, HS, HD.
+  split; [|split; [|split]].
+  - intros Hsmall.
+    assert (E : (n_row_ids (lw_geom P) <? tw_R a) || (g_cols (lw_geom P) <? C) = true).
+    { apply orb_true_iff. destruct Hsmall as [H|H]; [left|right]; now apply Nat.ltb_lt. }
+    rewrite E. reflexivity.
+  - intros (d & Hd & Hbad).
+    destruct ((n_row_ids (lw_geom P) <? tw_R a) || (g_cols (lw_geom P) <? C)); [reflexivity|].
+    rewrite Hd. destruct (nth_error (st_lw s) d) as [DP|]; [|reflexivity].
+    assert (E : (n_row_ids (lw_geom DP) <? tw_R a) || (g_cols (lw_geom DP) <? C) = true).
+    { apply orb_true_iff. destruct Hbad as [H|H]; [left|right]; now apply Nat.ltb_lt. }
+    rewrite E. reflexivity.
+  - intros Htr.
+    destruct ((n_row_ids (lw_geom P) <? tw_R a) || (g_cols (lw_geom P) <? C)); [reflexivity|].
+    match goal with |- (if ?b then _ else _) = _ => destruct b end; [reflexivity|].
+    assert (E : negb (is_trough (lw_geom St)) || negb (is_trough (lw_geom D)) = true).
+    { apply orb_true_iff. destruct Htr as [H|H]; rewrite H; [left|right]; reflexivity. }
+    rewrite E. reflexivity.
+  - intros HR HC Hdest HtS HtD.
+    assert (E1 : (n_row_ids (lw_geom P) <? tw_R a) || (g_cols (lw_geom P) <? C) = false).
+    { apply orb_false_iff. split; apply Nat.ltb_ge; assumption. }
+    rewrite E1, HtS, HtD. cbn [negb orb].
+    destruct (tw_dest a) as [d|] eqn:Ed; [|reflexivity].
+    destruct (nth_error (st_lw s) d) as [DP|] eqn:EDP.
+    + destruct ((n_row_ids (lw_geom DP) <? tw_R a) || (g_cols (lw_geom DP) <? C)) eqn:E2; [|reflexivity].
+      exfalso. apply Hdest. exists d. split; [exact Ed|]. rewrite EDP.
+      apply orb_true_iff in E2. destruct E2 as [H|H]; [left|right]; now apply Nat.ltb_lt.
+    + exfalso. apply Hdest. exists d. split; [exact Ed|]. now rewrite EDP.
+Qed.
+
+Lemma run_ops_app l1 : forall s l2,
+  run_ops s (l1 ++ l2) =
+  match run_ops s l1 with
+  | (s1, None) => run_ops s1 l2
+  | (s1, Some e) => (s1, Some e)
+  end.
+Proof.
+  induction l1 as [|o l1 IH]; intros s l2; [reflexivity|].
+  cbn [app run_ops]. destruct (step s o) as [s1 [e|]]; [reflexivity|]. apply IH.
+Qed.
+
+(** all operations of the plan, the i-th instruction issued with [max_volume = nth i wms] *)
+Definition plan_ops (a : twl_args) (p : dplan) (gs gd : geom) (is : list instr) (wms : list Q) : list op :=
+  flat_map (fun iw => instr_ops a p (snd iw) gs gd (fst iw)) (zip is wms).
+
+(** a run of the plan without refusal is a run of its operations, in order *)
+Lemma run_instrs_ops a p gs gd : forall is s s',
+  run_instrs s a p gs gd is = (s', None) ->
+  exists wms, length wms = length is /\ run_ops s (plan_ops a p gs gd is wms) = (s', None).
+Proof.
+  induction is as [|i is IH]; intros s s' H.
+  - cbn in H. inversion H; subst s'. exists []. split; reflexivity.
+  - cbn [run_instrs] in H. destruct (negb (column_ready s a i)); [discriminate|].
+    destruct (run_ops s (instr_ops a p (w_max (st_wl s)) gs gd i)) as [s1 [e|]] eqn:E; [discriminate|].
+    destruct (IH _ _ H) as (wms & L & Hrun).
+    exists (w_max (st_wl s) :: wms). split; [cbn [length]; lia|].
+    unfold plan_ops in *. cbn [zip flat_map fst snd]. rewrite run_ops_app, E. exact Hrun.
+Qed.
+
+(* ------------------------------------------------------------------------------------------ *)
+(** * requested volumes *)
+
+(** total volume of one [transfer] call, with the broadcasting of [transfer] *)
+Definition transfer_total (sw dw : arr string) (vs : arr Q) : Q :=
+  let n := Nat.max (length (flattenF sw)) (Nat.max (length (flattenF dw)) (length (flattenF vs))) in
+  Qsum (broadcast (flattenF vs) n).
+(** volume an operation requests from labware [k] *)
+Definition requested (k : nat) (o : op) : Q :=
+  match o with
+  | OTransfer ks sw _ dw vs _ _ _ _ => if ks =? k then transfer_total sw dw vs else 0%Q
+  | _ => 0%Q
+  end.
+Definition requested_all (k : nat) (ops : list op) : Q := Qsum (map (requested k) ops).
+(** volumes of the serially diluted columns *)
+Definition serial_vols_of (p : dplan) : list Z :=
+  concat (map i_vols (filter (fun i => negb (stock_prepared i)) (dp_instr p))).
+
+Lemma broadcast_self {A} (l : list A) : broadcast l (length l) = l.
+Proof. destruct l as [|x [|y t]]; reflexivity. Qed.
+
+Lemma transfer_total_A1 sw dw vs : length sw <= length vs -> length dw = length vs ->
+  transfer_total (A1 sw) (A1 dw) (A1 vs) = Qsum vs.
+Proof.
+  intros H1 H2. unfold transfer_total. cbn [flattenF].
+  replace (Nat.max (length sw) (Nat.max (length dw) (length vs))) with (length vs) by lia.
+  now rewrite broadcast_self.
+Qed.
+
+Lemma cycle_wells_le n l : length (cycle_wells n l) <= n.
+Proof. unfold cycle_wells. apply firstn_le_length. Qed.
+
+Lemma column_wells_length R c : length (column_wells R c) = R.
+Proof. unfold column_wells. now rewrite map_length, seq_length. Qed.
+
+Lemma all_vols_split (l : list instr) :
+  Zsum (concat (map i_vols l)) =
+  (Zsum (concat (map i_vols (filter stock_prepared l))) +
+   Zsum (concat (map i_vols (filter (fun i => negb (stock_prepared i)) l))))%Z.
+Proof.
+  induction l as [|i l IH]; [reflexivity|].
+  cbn [map concat filter]. rewrite Zsum_app, IH.
+  destruct (stock_prepared i); cbn [negb map concat]; rewrite Zsum_app; lia.
+Qed.
+
+Lemma Zsum_nonneg l : Forall (fun v => (0 <= v)%Z) l -> (0 <= Zsum l)%Z.
+Proof.
+  induction 1 as [|x l Hx Hl IH]; [cbn; lia|]. unfold Zsum in *. cbn [fold_right]. lia.
+Qed.
+
+Section Requested.
+Local Open Scope Q_scope.
+
+Lemma Qsum_app' l1 l2 : Qsum (l1 ++ l2) == Qsum l1 + Qsum l2.
+Proof.
+  induction l1 as [|x l1 IH]; [unfold Qsum at 2; cbn [app fold_right]; ring|].
+  cbn [app]. rewrite !Qsum_cons, IH. ring.
+Qed.
+
+Lemma Qsum_nil : Qsum [] == 0.
+Proof. reflexivity. Qed.
+
+Lemma Qsum_map_ext {A} (f g : A -> Q) l :
+  (forall x, In x l -> f x == g x) -> Qsum (map f l) == Qsum (map g l).
+Proof.
+  induction l as [|x l IH]; intro H; [reflexivity|].
+  cbn [map]. rewrite !Qsum_cons, (H x (or_introl eq_refl)), IH; [reflexivity|].
+  intros y Hy. apply H. now right.
+Qed.
+
+Lemma Qsum_inject l : Qsum (map inject_Z l) == inject_Z (Zsum l).
+Proof.
+  induction l as [|x l IH]; [reflexivity|].
+  cbn [map]. rewrite Qsum_cons, IH. unfold Zsum. cbn [fold_right]. rewrite inject_Z_plus. reflexivity.
+Qed.
+
+Lemma Qsum_fill vm l :
+  Qsum (map (fun v => Qred (vm - v)) (map inject_Z l)) == inject_Z (Z.of_nat (length l)) * vm - inject_Z (Zsum l).
+Proof.
+  induction l as [|x l IH].
+  - unfold Qsum, Zsum. cbn [map fold_right length Z.of_nat]. ring.
+  - cbn [map length]. rewrite Qsum_cons, IH, Qred_correct.
+    rewrite Nat2Z.inj_succ. unfold Z.succ. rewrite inject_Z_plus.
+    unfold Zsum. cbn [fold_right]. rewrite inject_Z_plus. ring.
+Qed.
+
+Lemma requested_all_app k l1 l2 :
+  requested_all k (l1 ++ l2) == requested_all k l1 + requested_all k l2.
+Proof. unfold requested_all. rewrite map_app. apply Qsum_app'. Qed.
+
+Lemma requested_all_zero k ops : (forall o, In o ops -> requested k o = 0) -> requested_all k ops == 0.
+Proof.
+  induction ops as [|o ops IH]; intro H; [reflexivity|].
+  unfold requested_all in *. cbn [map]. rewrite Qsum_cons, (H o (or_introl eq_refl)), IH; [ring|].
+  intros o' Ho'. apply H. now right.
+Qed.
+
+Lemma requested_all_flat_map {A} k (f : A -> list op) l :
+  requested_all k (flat_map f l) == Qsum (map (fun x => requested_all k (f x)) l).
+Proof.
+  induction l as [|x l IH]; [reflexivity|].
+  cbn [flat_map map]. rewrite requested_all_app, Qsum_cons, IH. reflexivity.
+Qed.
+
+Variables (a : twl_args) (p : dplan) (gs gd : geom).
+
+(** nothing but the first two transfers touches the troughs *)
+Lemma plate_parts_zero k wmax i : tw_plate a <> k ->
+  requested_all k (mix_part a p wmax i ++ serial_part a p i ++ dest_part a i) == 0.
+Proof.
+  intro Hk. apply Nat.eqb_neq in Hk. apply requested_all_zero. intros o Ho.
+  apply in_app_or in Ho. destruct Ho as [Ho|Ho]; [|apply in_app_or in Ho; destruct Ho as [Ho|Ho]].
+  - unfold mix_part in Ho. destruct (needs_mix a p i); [|destruct Ho].
+    apply in_flat_map in Ho. destruct Ho as (r & _ & [Ho|[Ho|[]]]); subst o; [|reflexivity].
+    unfold mix_op. cbn [requested]. now rewrite Hk.
+  - unfold serial_part in Ho.
+    apply in_flat_map in Ho. destruct Ho as (j & _ & [Ho|[Ho|[]]]); subst o; [|reflexivity].
+    unfold serial_op. cbn [requested]. now rewrite Hk.
+  - unfold dest_part in Ho. destruct (tw_dest a) as [d|]; [|destruct Ho].
+    destruct Ho as [Ho|[Ho|[]]]; subst o; [|reflexivity].
+    unfold dest_op. cbn [requested]. now rewrite Hk.
+Qed.
+
+Hypothesis Hps : tw_plate a <> tw_stock a.
+Hypothesis Hpd : tw_plate a <> tw_diluent a.
+Hypothesis Hsd : tw_stock a <> tw_diluent a.
+
+Lemma instr_requested_stock wmax i : length (i_vols i) = tw_R a ->
+  requested_all (tw_stock a) (instr_ops a p wmax gs gd i) ==
+  if stock_prepared i then inject_Z (Zsum (i_vols i)) else 0.
+Proof.
+  intro HR. rewrite c14_exec_structure, requested_all_app.
+  rewrite (requested_all_app _ (dilute_part a p gd i)), plate_parts_zero by exact Hps.
+  assert (Hd : requested_all (tw_stock a) (dilute_part a p gd i) == 0).
+  { apply requested_all_zero. intros o [Ho|[Ho|[]]]; subst o; [|reflexivity].
+    unfold dilute_op. cbn [requested].
+    assert (E : (tw_diluent a =? tw_stock a) = false) by (apply Nat.eqb_neq; congruence).
+    now rewrite E. }
+  rewrite Hd. unfold stock_part, stock_prepared. destruct (i_src i) as [k|].
+  - unfold requested_all. cbn [map]. rewrite Qsum_nil. ring.
+  - unfold requested_all. cbn [map]. rewrite !Qsum_cons, Qsum_nil.
+    unfold stock_op. cbn [requested]. rewrite Nat.eqb_refl.
+    unfold col_wells. rewrite transfer_total_A1.
+    + rewrite Qsum_inject. ring.
+    + rewrite map_length, HR. apply cycle_wells_le.
+    + now rewrite map_length, column_wells_length.
+Qed.
+
+Lemma instr_requested_diluent wmax i : length (i_vols i) = tw_R a ->
+  requested_all (tw_diluent a) (instr_ops a p wmax gs gd i) ==
+  inject_Z (Z.of_nat (tw_R a)) * vm_of p i - inject_Z (Zsum (i_vols i)).
+Proof.
+  intro HR. rewrite c14_exec_structure, requested_all_app.
+  rewrite (requested_all_app _ (dilute_part a p gd i)), plate_parts_zero by exact Hpd.
+  assert (Hs : requested_all (tw_diluent a) (stock_part a gs i) == 0).
+  { apply requested_all_zero. unfold stock_part. destruct (i_src i) as [k|]; [intros o []|].
+    intros o [Ho|[Ho|[]]]; subst o; [|reflexivity].
+    unfold stock_op. cbn [requested].
+    assert (E : (tw_stock a =? tw_diluent a) = false) by (apply Nat.eqb_neq; congruence).
+    now rewrite E. }
+  rewrite Hs. unfold dilute_part, requested_all. cbn [map]. rewrite !Qsum_cons, Qsum_nil.
+  unfold dilute_op. cbn [requested]. rewrite Nat.eqb_refl.
+  unfold col_wells. rewrite transfer_total_A1.
+  - rewrite Qsum_fill, HR. ring.
+  - rewrite !map_length, HR. apply cycle_wells_le.
+  - now rewrite !map_length, column_wells_length.
+Qed.
+
+End Requested.
+
+Lemma zip_In_fst {A B} (l : list A) : forall (m : list B) x, In x (zip l m) -> In (fst x) l.
+Proof.
+  induction l as [|y l IH]; intros m x H; [destruct H|].
+  destruct m as [|z m]; [destruct H|]. cbn [zip In] in H. destruct H as [H|H].
+  - subst x. now left.
+  - right. exact (IH _ _ H).
+Qed.
+
+Lemma map_fst_zip_len {A B C} (f : A -> C) (l : list A) : forall (m : list B),
+  length m = length l -> map (fun iw => f (fst iw)) (zip l m) = map f l.
+Proof.
+  induction l as [|y l IH]; intros [|z m] H; cbn [length] in H; try lia; [reflexivity|].
+  cbn [zip map fst]. f_equal. apply IH. lia.
+Qed.
+
+Section Totals.
+Local Open Scope Q_scope.
+
+Lemma stock_total (l : list instr) :
+  Qsum (map (fun i => if stock_prepared i then inject_Z (Zsum (i_vols i)) else 0) l) ==
+  inject_Z (Zsum (concat (map i_vols (filter stock_prepared l)))).
+Proof.
+  induction l as [|i l IH]; [reflexivity|].
+  cbn [map filter]. rewrite Qsum_cons, IH. destruct (stock_prepared i).
+  - cbn [map concat]. rewrite Zsum_app, inject_Z_plus. reflexivity.
+  - ring.
+Qed.
+
+Lemma diluent_total (k : Q) (f : instr -> Q) (l : list instr) :
+  Qsum (map (fun i => k * f i - inject_Z (Zsum (i_vols i))) l) ==
+  k * Qsum (map f l) - inject_Z (Zsum (concat (map i_vols l))).
+Proof.
+  induction l as [|i l IH]; [unfold Qsum, Zsum; cbn [map concat fold_right]; ring|].
+  cbn [map concat]. rewrite !Qsum_cons, IH, Zsum_app, inject_Z_plus. ring.
+Qed.
+
+Lemma vm_of_plan ideal stock vmax mt p :
+  plan_core ideal stock vmax mt = Ok p -> length vmax = length ideal ->
+  map (vm_of p) (dp_instr p) = vmax.
+Proof.
+  intros H L. destruct (proj1 (c14_complete ideal stock vmax mt) p H) as (Hv & L1 & _ & _ & Hcol).
+  apply (nth_ext _ _ 0 0); [rewrite map_length; lia|].
+  intros n Hn. rewrite map_length in Hn. rewrite (nth_map_lt _ _ dinstr) by exact Hn.
+  unfold vm_of. rewrite Hv, Hcol by lia. reflexivity.
+Qed.
+
+Lemma c14_exec_requested ideal stock vmax mt p R a gs gd wms :
+  plan_core ideal stock vmax mt = Ok p -> Forall (fun col => length col = R) ideal ->
+  length vmax = length ideal -> tw_R a = R ->
+  tw_plate a <> tw_stock a -> tw_plate a <> tw_diluent a -> tw_stock a <> tw_diluent a ->
+  length wms = length (dp_instr p) ->
+  requested_all (tw_stock a) (plan_ops a p gs gd (dp_instr p) wms) == inject_Z (v_stock p) /\
+  requested_all (tw_diluent a) (plan_ops a p gs gd (dp_instr p) wms) ==
+    inject_Z (Z.of_nat R) * Qsum vmax - inject_Z (Zsum (all_vols p)) /\
+  requested_all (tw_diluent a) (plan_ops a p gs gd (dp_instr p) wms) ==
+    v_diluent R p - inject_Z (Zsum (serial_vols_of p)) /\
+  (0 <= mt -> requested_all (tw_diluent a) (plan_ops a p gs gd (dp_instr p) wms) <= v_diluent R p).
+Proof.
+  intros H Hrect Lv HR Hps Hpd Hsd Lw.
+  assert (Hlen : forall i, In i (dp_instr p) -> length (i_vols i) = tw_R a).
+  { intros i Hi. destruct (plan_instr_nth _ _ _ _ _ _ H Hi) as (c & Hc & Hn & _).
+    destruct (c14_shape _ _ _ _ _ _ H Hrect c Hc) as (Lc & _). rewrite Hn in Lc. now rewrite HR. }
+  assert (Hst : requested_all (tw_stock a) (plan_ops a p gs gd (dp_instr p) wms) == inject_Z (v_stock p)).
+  { unfold plan_ops. rewrite requested_all_flat_map.
+    rewrite (Qsum_map_ext _ (fun iw => if stock_prepared (fst iw) then inject_Z (Zsum (i_vols (fst iw))) else 0)).
+    - rewrite (map_fst_zip_len (fun i => if stock_prepared i then inject_Z (Zsum (i_vols i)) else 0)) by exact Lw.
+      rewrite stock_total, (c14_v_stock _ _ _ _ _ H). reflexivity.
+    - intros iw Hiw. apply instr_requested_stock; try assumption. apply Hlen. exact (zip_In_fst _ _ _ Hiw). }
+  assert (Hdi : requested_all (tw_diluent a) (plan_ops a p gs gd (dp_instr p) wms) ==
+                inject_Z (Z.of_nat R) * Qsum vmax - inject_Z (Zsum (all_vols p))).
+  { unfold plan_ops. rewrite requested_all_flat_map.
+    rewrite (Qsum_map_ext _ (fun iw => inject_Z (Z.of_nat (tw_R a)) * vm_of p (fst iw)
+                                        - inject_Z (Zsum (i_vols (fst iw))))).
+    - rewrite (map_fst_zip_len (fun i => inject_Z (Z.of_nat (tw_R a)) * vm_of p i - inject_Z (Zsum (i_vols i))))
+        by exact Lw.
+      rewrite diluent_total, (vm_of_plan _ _ _ _ _ H Lv), HR. reflexivity.
+    - intros iw Hiw. apply instr_requested_diluent; try assumption. apply Hlen. exact (zip_In_fst _ _ _ Hiw). }
+  assert (Hsplit : Zsum (all_vols p) = (v_stock p + Zsum (serial_vols_of p))%Z).
+  { unfold all_vols, serial_vols_of. rewrite all_vols_split, (c14_v_stock _ _ _ _ _ H). reflexivity. }
+  assert (Hvd : v_diluent R p == inject_Z (Z.of_nat R) * Qsum vmax - inject_Z (v_stock p)).
+  { rewrite c14_v_diluent. destruct (proj1 (c14_complete ideal stock vmax mt) p H) as (Hv & _).
+    rewrite Hv. reflexivity. }
+  split; [exact Hst|]. split; [exact Hdi|]. split.
+  - rewrite Hdi, Hvd, Hsplit, inject_Z_plus. ring.
+  - intro Hmt. rewrite Hdi, Hvd, Hsplit, inject_Z_plus.
+    assert (Hnn : (0 <= Zsum (serial_vols_of p))%Z).
+    { apply Zsum_nonneg. apply Forall_forall. intros v Hv. unfold serial_vols_of in Hv.
+      apply in_concat in Hv. destruct Hv as (vs & Hvs & Hv).
+      apply in_map_iff in Hvs. destruct Hvs as (i & Hi & Hin). subst vs.
+      apply filter_In in Hin. destruct Hin as (Hin & _).
+      pose proof (plan_vols_min _ _ _ _ _ H i v Hin Hv) as Hm.
+      assert (H0 : 0 <= inject_Z v) by lra. now rewrite <- (Zle_Qle 0) in H0. }
+    rewrite (Zle_Qle 0) in Hnn. change (inject_Z 0) with 0 in Hnn. lra.
+Qed.
+
+End Totals.
+
+(* ------------------------------------------------------------------------------------------ *)
+(** * the argument checks of __init__ in front of the planner *)
+
+(** vmax as one value per column: a scalar is repeated *)
+Definition vmax_columns (C : nat) (vmax : arr Q) : list Q :=
+  match flattenF vmax with [x] => repeat x C | l => l end.
+
+Lemma dilution_plan_ok sg mo C vmax ideal stock mt p :
+  dilution_plan sg mo C vmax ideal stock mt = Ok p ->
+  sg = true /\ mo = true /\ length (vmax_columns C vmax) = C /\
+  plan_core ideal stock (vmax_columns C vmax) mt = Ok p.
+Proof.
+  unfold dilution_plan. fold (vmax_columns C vmax). intro H.
+  destruct sg; [|discriminate]. cbn [negb] in H.
+  destruct (length (vmax_columns C vmax) =? C) eqn:E; [|discriminate]. cbn [negb] in H.
+  destruct mo; [|discriminate]. cbn [negb] in H. apply Nat.eqb_eq in E.
+  repeat split; assumption.
+Qed.
+
+Lemma dilution_plan_refuses sg mo C vmax ideal stock mt :
+  sg = false \/ mo = false \/ length (vmax_columns C vmax) <> C ->
+  dilution_plan sg mo C vmax ideal stock mt = Err EValue.
+Proof.
+  unfold dilution_plan. fold (vmax_columns C vmax). intros [H|[H|H]].
+  - subst sg. reflexivity.
+  - subst mo. destruct (negb sg); [reflexivity|].
+    destruct (negb (length (vmax_columns C vmax) =? C)); reflexivity.
+  - apply Nat.eqb_neq in H. rewrite H. destruct (negb sg); reflexivity.
+Qed.
